@@ -1828,6 +1828,9 @@ func (b *Block) setExportedVars() (err error) {
 		return fmt.Errorf("block has 0 labels, which is not allowed")
 	}
 
+	if gx == 0 || gy == 0 || gz == 0 {
+		return fmt.Errorf("block has %d x %d x %d sub-blocks: every dimension must be at least 1", gx, gy, gz)
+	}
 	if gx > MaxSubBlockSize || gy > MaxSubBlockSize || gz > MaxSubBlockSize {
 		return fmt.Errorf("%d x %d x %d sub-blocks exceed max dimension of %d voxels (%d sub-blocks)", gx, gy, gz, MaxBlockSize, MaxSubBlockSize)
 	}
@@ -1877,6 +1880,28 @@ func (b *Block) setExportedVars() (err error) {
 
 	pos += subBlockIndexBytes
 	b.SBValues = b.data[pos:]
+
+	// Every reader of a block indexes the label table with the sub-block indices and steps through the
+	// packed values by the per-sub-block label counts, without further checks: refuse here what would
+	// make them read outside the tables.
+	const subBlockNumVoxels = SubBlockSize * SubBlockSize * SubBlockSize
+	for i, index := range b.SBIndices {
+		if index >= numLabels {
+			return fmt.Errorf("sub-block index %d is %d, but the block has only %d labels", i, index, numLabels)
+		}
+	}
+	var valueBytes uint64
+	for i, num := range b.NumSBLabels {
+		if num > subBlockNumVoxels {
+			return fmt.Errorf("sub-block %d claims %d labels, more than its %d voxels", i, num, subBlockNumVoxels)
+		}
+		if num > 1 {
+			valueBytes += (uint64(subBlockNumVoxels)*uint64(bitsFor(num)) + 7) / 8
+		}
+	}
+	if uint64(len(b.SBValues)) < valueBytes {
+		return fmt.Errorf("block data has %d bytes of packed values, but its sub-blocks need %d", len(b.SBValues), valueBytes)
+	}
 	return
 }
 
